@@ -158,6 +158,19 @@ class ZooMesh:
         co[:, 0] = np.where(x <= x0 + 1e-12, x * (w / x0), w + (x - x0) * ((1.0 - w) / (1.0 - x0)))
         return ZooMesh(co, self.groups, dict(self.exact), name or f"{self.name}|kink", self.boundary)
 
+    def tapered(self, a=0.3, name=None) -> "ZooMesh":
+        """(x, y, z) -> (x s, y s, z), s = 1 - a z, of a template on the unit cube made of HEXA / PRISM cells (edges vertical or
+        horizontal): faces stay planar and edges straight, the cells become non-affine frusta. Exact volume and centroid by integration."""
+        co = self.coords.copy()
+        sc = 1.0 - a * co[:, 2]
+        co[:, 0] *= sc
+        co[:, 1] *= sc
+        i2 = 1 - a + a * a / 3                      # int_0^1 s^2 dz
+        i3 = 1 - 1.5 * a + a * a - a ** 3 / 4       # int_0^1 s^3 dz
+        iz = 0.5 - 2 * a / 3 + a * a / 4            # int_0^1 z s^2 dz
+        ex = dict(self.exact, measure=i2, centroid=np.array([0.5 * i3 / i2, 0.5 * i3 / i2, iz / i2]))
+        return ZooMesh(co, self.groups, ex, name or f"{self.name}|taper", self.boundary)
+
     def mapped(self, A=None, b=None, name=None) -> "ZooMesh":
         """Affine image x -> A x + b (A 3x3)."""
         A = np.eye(3) if A is None else np.asarray(A, dtype=float)
